@@ -95,6 +95,19 @@ def run_replay(path, timeout=120):
         return {'verdict': 'error', 'detail': 'replay timeout'}
 
 
+def run_sweep(qual, budget=120):
+    try:
+        pr = subprocess.run([VENV_PY, os.path.join(HERE, 'replay', 'run.py'), '--sweep', qual, str(budget)],
+                            capture_output=True, text=True, timeout=budget + 90,
+                            env=dict(os.environ, PYTHONPATH=REPO, PYVC_REPO=REPO))
+        for line in reversed(pr.stdout.strip().splitlines()):
+            if line.startswith('{'):
+                return json.loads(line)
+        return {'verdict': 'error', 'detail': (pr.stdout + pr.stderr)[-1000:]}
+    except subprocess.TimeoutExpired:
+        return {'verdict': 'error', 'detail': 'sweep timeout'}
+
+
 def main(argv=None):
     import argparse
     ap = argparse.ArgumentParser()
@@ -137,6 +150,7 @@ def run(args):
     fuc = []
     undecided = []
     gen_time = 0.0
+    spec.require_variants = bool(getattr(prop, 'REQUIRE_VARIANTS', False))
     functions = list(prop.FUNCTIONS)
     if args.only:
         functions = [f for f in functions if args.only in f]
@@ -210,6 +224,8 @@ def run(args):
             ent['unsat'] += 1
             counts['discharged'] += 1
             by_backend[r['backend']] = by_backend.get(r['backend'], 0) + 1
+            if both and r.get('cvc5') and r['cvc5'][0] == 'unsat' and not r['backend'].startswith('cvc5'):
+                by_backend['cvc5-1.0.3 cross-check agrees'] = by_backend.get('cvc5-1.0.3 cross-check agrees', 0) + 1
             if both and r.get('cvc5') and r['cvc5'][0] == 'sat':
                 checker_failures.append('solver disagreement on %s (z3 unsat, cvc5 sat)' % vc.name)
         elif r['result'] == 'sat':
@@ -317,6 +333,42 @@ def run(args):
             else:
                 violations.append((info, ''))
             undecided.remove(u)
+    # ---- thorough tier: complete falsifier enumeration of every adapter on the real code (bounded stand-in:
+    # it can only ADD violations -- a ledger clause that a concrete real execution falsifies -- never discharge anything)
+    bounded = []
+    if tier == 'thorough':
+        already = set(info['obligation'] for info, _ in violations) | set(info['obligation'] for kf, info in known_hits)
+        for qual in functions:
+            sw = run_sweep(qual)
+            if sw.get('verdict') != 'sweep':
+                if sw.get('verdict') != 'no-adapter':
+                    bounded.append({'function': qual, 'what': 'falsifier sweep failed to run: %s' % sw.get('detail', '')[:200]})
+                continue
+            fn = qual.split(':')[1]
+            bounded.append({'function': qual, 'inputs_tried': sw['tried'], 'complete': sw['complete'],
+                            'adapter_errors': sw.get('adapter_errors', 0),
+                            'what': 'bounded: enumeration of concrete real executions by the replay adapter; '
+                                    'not counted as proved'})
+            for clause, wit in sorted(sw['failing'].items()):
+                cn = '%s:%s' % (clause, fn)
+                if cn in already or cn in getattr(prop, 'EXCLUDE_CLAUSES', ()):
+                    continue
+                if cn not in ledger and not (clause == 'noescape' and ('noescape:' + fn) in ledger):
+                    continue
+                rfile = os.path.join(outdir, 'sweep_' + re.sub(r'[^A-Za-z0-9_.\[\]-]', '_', cn) + '.json')
+                rp = {'verdict': 'reproduced', 'source': 'thorough sweep (bounded enumeration of real executions)',
+                      'inputs': wit['inputs'], 'observed': wit['observed'], 'clause': clause}
+                json.dump({'property': pid, 'obligation': cn, 'function': qual, 'tree': tree_id(),
+                           'inputs': wit['inputs'], 'models': [], 'replay': rp,
+                           'solver': [{'result': 'discharged-but-falsified-by-execution',
+                                       'reason': 'a trusted contract or the adapter oracle disagrees with the proof'}]},
+                          open(rfile, 'w'), indent=1, default=str)
+                info = {'obligation': cn, 'function': qual, 'replay_file': os.path.relpath(rfile, HERE), 'replay': rp}
+                kf = match_known(known, pid, cn, rp)
+                if kf is not None:
+                    known_hits.append((kf, info))
+                else:
+                    violations.append((info, ''))
     for kf, info in known_hits:
         print('KNOWN-FINDING: property=%s %s [%s]' % (pid, kf['what'], info['obligation']))
     code = 0
@@ -399,7 +451,7 @@ def finish(pid, tier, seed, code, t0, L):
                           'vc_generation': round(L.get('gen_time', 0.0), 2)},
         'frame_scans': [dict((k, v) for k, v in fr.items() if k != 'sites') for fr in L.get('frame_results', [])],
         'lemmas': list(getattr(prop, 'LEMMAS', [])),
-        'bounded': list(getattr(prop, 'BOUNDED_RESULTS', [])),
+        'bounded': list(getattr(prop, 'BOUNDED_RESULTS', [])) + list(L.get('bounded', [])),
         'undecided': L.get('undecided', []),
         'violations': [dict(obligation=i['obligation'], replay=i['replay_file'], suffix=s.strip())
                        for i, s in L.get('violations', [])],
